@@ -13,8 +13,17 @@ width `E`, then the shape as a flat list of naturals in the grammar of `Packing.
       meta  wf=0|1 distinct=0|1 validated=0|1 dead=k
             (`dead` = allocated inputs not consumed by the verifier model; `validated`, `dead`
              are model-only and compared by `bin/checks_c14.py`, not with the implementation)
+
+  hidmerge tokens…      tokens = opening structure (list of rounds, each a list of matrices, each
+                        the number of opening points) then the hiding random opened values
+                        (rounds → matrices → points → length), both in the list grammar of `pList`
+    → hidmerge ok | hidmerge mismatch:rounds | mismatch:matrices | mismatch:points
+      (`P3R.Packing.hidMerge`, the model of `merge_hiding_random_openings`; `ok-dead=k` would mean
+       a successful merge left `k` allocated hiding inputs unconsumed — excluded by
+       `P3R.C14.hidMerge_complete`)
 -/
 import P3R.Model.Packing
+import P3R.Model.HidingMerge
 
 open P3R.Packing
 
@@ -31,8 +40,25 @@ def render (alloc : List Slot) (pub priv uses : List Label) (wf validated : Bool
     s!"flat {(pubOf alloc).length} {(privOf alloc).length}",
     s!"meta wf={b2s wf} distinct={b2s (allDistinct labs)} validated={b2s validated} dead={dead}" ]
 
+def hidmerge (toks : List Nat) : List String :=
+  match pList (pList pNat) toks with
+  | some (o, r1) =>
+    match pList (pList (pList pNat)) r1 with
+    | some (h, []) =>
+      match hidMerge o h with
+      | .error e => [s!"hidmerge mismatch:{e.name}"]
+      | .ok uses =>
+        let dead := ((hidAlloc h).map Slot.lab |>.filter fun l => !(uses.contains l)).length
+        if dead = 0 then ["hidmerge ok"] else [s!"hidmerge ok-dead={dead}"]
+    | _ => ["bad-op"]
+  | none => ["bad-op"]
+
 def step (line : String) : List String :=
   match (line.trimAscii.toString.splitOn " ").filter (· ≠ "") with
+  | "hidmerge" :: rest =>
+    match rest.mapM String.toNat? with
+    | some toks => if toks.length > 20000 then ["bad-op"] else hidmerge toks
+    | none => ["bad-op"]
   | "shape" :: kind :: rest =>
     match rest.mapM String.toNat? with
     | some (D :: E :: toks) =>
